@@ -232,3 +232,57 @@ package writer
 //@   site call convertColumnToNumbers #1:
 //@     assert [rewritten-column-marked-inconsistent] allSeenColumnSizes[colName] == sutils.INCONSISTENT_CVAL_SIZE
 //@ end
+
+// C14 (metadata file lists exactly the survivors): removeSegmetas rewrites
+// segmeta.json from the entries it preserved.  An entry is preserved only if
+// it is not a victim (other index / key not listed), the rewritten file is
+// produced by truncating the temp file (no stale tail of an interrupted
+// earlier pass can survive) and is renamed over segmeta.json itself.
+//@ func removeSegmetas
+//@   props C14
+//@   site call append #1:
+//@     assert [survivor-of-other-index] segMetaData.VirtualTableName != indexName
+//@   site call append #2:
+//@     assert [survivor-not-listed] !haskey(segkeysToRemove, segMetaData.SegmentKey)
+//@   site call os.OpenFile #2:
+//@     assert [rewrite-truncates] (arg1 & os.O_TRUNC) != 0 && (arg1 & os.O_APPEND) == 0 && (arg1 & os.O_WRONLY) != 0
+//@   site call os.Rename #1:
+//@     assert [temp-renamed-over-segmeta] arg0 == tmpFileName && arg1 == localSegmetaFname
+//@ end
+
+// C15 (a failed item leaves no trace / a malformed item affects only itself):
+// parsed-event objects are recycled through a pool, and the parser appends
+// columns to whatever the object already holds.  Whatever the pool hands out,
+// the document is parsed into an event with no columns, carrying the body,
+// timestamp and index of this request only.
+//@ func (*ParsedLogEvent).Reset
+//@   props C15
+//@   modifies ple.allCnames, ple.allCvals, ple.allCvalsTypeLen, ple.numCols
+//@   ensures [emptied] ple.numCols == 0 && len(ple.allCnames) == 0 && len(ple.allCvals) == 0 && len(ple.allCvalsTypeLen) == 0
+//@ end
+
+//@ func (*ParsedLogEvent).SetRawJson
+//@   props C15
+//@   modifies ple.rawJson
+//@   ensures samebase(ple.rawJson, rawJson) && len(ple.rawJson) == len(rawJson)
+//@ end
+
+//@ func (*ParsedLogEvent).SetTimestamp
+//@   props C15
+//@   modifies ple.timestampMillis
+//@   ensures ple.timestampMillis == timestampMillis
+//@ end
+
+//@ func (*ParsedLogEvent).SetIndexName
+//@   props C15
+//@   modifies ple.indexName
+//@   ensures ple.indexName == indexName
+//@ end
+
+//@ func GetNewPLE
+//@   props C15
+//@   requires tsKey != nil
+//@   site call ParseRawJsonObject #1:
+//@     assert [parsed-into-an-empty-event] arg4 == ple && ple.numCols == 0 && len(ple.allCnames) == 0 && len(ple.allCvals) == 0 && len(ple.allCvalsTypeLen) == 0
+//@     assert [event-carries-this-request] samebase(ple.rawJson, rawJson) && samebase(arg1, rawJson) && ple.indexName == indexName && ple.timestampMillis == tsMillis
+//@ end
